@@ -21,9 +21,9 @@ const polyclipPath = "github.com/ctessum/polyclip-go"
 var c01ops = map[string]string{"Intersection": "INTERSECTION", "Union": "UNION", "XOr": "XOR", "Difference": "DIFFERENCE"}
 
 func checkC01(c *Ctx) {
-	c.Rule("C01.R1", "for Polygon, MultiPolygon and *Bounds receivers, the polyclip.Op constant that reaches Construct from Intersection/Union/XOr/Difference is INTERSECTION/UNION/XOR/DIFFERENCE respectively (directly, through an op helper, or by delegation to the same-named method)")
-	c.Rule("C01.R2", "in every function that calls Construct: the subject is built from the receiver only and the clipping operand from the parameter only, every member polygon is converted (full range), and the converter copies every ring and vertex (identity index map)")
-	c.Rule("C01.R3", "the converter back from the clipper allocates len+1 vertices per ring and stores vertex 0 into the last slot (closed rings)")
+	c.Rule("C01.R1", "model evaluation with the external clipper replaced by a recorder: for Polygon, MultiPolygon and *Bounds receivers and arguments (1–2 members, 1–2 rings), Intersection/Union/XOr/Difference hand Construct the operation constant INTERSECTION/UNION/XOR/DIFFERENCE respectively — directly, through helpers, or by delegation")
+	c.Rule("C01.R2", "model evaluation, same runs: the subject handed to the clipper holds exactly the receiver's rings and the clipping operand exactly the argument's rings, every ring and vertex in its own position (no member skipped, none taken from the other operand)")
+	c.Rule("C01.R3", "model evaluation, same runs: every ring of the geometry built from the clipper's answer is closed by one repetition of its first vertex and carries the clipper's vertices in order")
 	c.Rule("C01.R4", "rectangle shortcuts of (*Bounds).Intersection and (*Bounds).Within(*Bounds) agree with the box relation that guards them, for every weak ordering of the coordinates; (*Bounds).Polygons is the rectangle ring")
 	c.Rule("C01.R5", "the external clipper's trivial-case switches (an operand empty / bounding boxes disjoint) give XOR the same result as UNION")
 	a := &c01{c: c, info: c.P.Pkg("geom").TypesInfo}
